@@ -118,6 +118,12 @@ theorem buildProtocol_inv {w : World} (h : WInv w) (a : Nat)
     split at hq
     · injection hq with hq; subst hq; cases hcq
     · exact h.connReqLive q qr cr c hq hcq
+  case connReqRef =>
+    intro q qr cr hq hcq
+    rw [hprot] at hq
+    split at hq
+    · injection hq with hq; subst hq; cases hcq
+    · exact h.connReqRef q qr cr hq hcq
   case subArmed =>
     intro e he hb ha
     obtain ⟨q, qr, a1, _⟩ := h.subArmed e he hb ha
@@ -453,5 +459,277 @@ theorem apiUnsubscribe_inv {w : World} (h : WInv w) (p : Nat) (arg : UnsubArg) (
         | ok bs => exact registerSubUnsub_inv h2 p ppr hpp1 hnl false _ (by omega) hfr bs
   · simp only [ha, Bool.not_false, ↓reduceIte]
     exact ⟨rfl, emit_inv h _⟩
+
+/-! ### connect() -/
+
+def connStartW (w : World) (p : Nat) (npr : Proto) (due ka : Nat) (log' : List Obs) : World :=
+  { w with protos := w.protos.set p npr, log := log',
+           timers := w.timers.set w.nextTimer ⟨due, .connack w.nextCR, .pending⟩, nextTimer := w.nextTimer + 1,
+           nextDfd := w.nextDfd + 1, connReqs := w.connReqs.set w.nextCR ⟨p, ka, some w.nextDfd, w.nextTimer⟩, nextCR := w.nextCR + 1 }
+
+/-- the handshake starts: CONNECT written, state CONNECTING, timeout armed, Deferred created -/
+theorem connStart_inv {w : World} (h : WInv w) (p : Nat) (ppr : Proto) (hpp : w.protos.get? p = some ppr)
+    (hs : ppr.state = .idle) (hnl : ppr.lost = false) (cs : Bool) (v : Version) (due ka : Nat) (log' : List Obs) :
+    WInv (connStartW w p { ppr with cleanStart := cs, version := v, state := .connecting, connReq := some w.nextCR } due ka log') := by
+  obtain ⟨npr, hnpr⟩ : ∃ npr : Proto, npr = { ppr with cleanStart := cs, version := v, state := .connecting, connReq := some w.nextCR } := ⟨_, rfl⟩
+  rw [← hnpr]
+  have n1 : npr.addr = ppr.addr := by rw [hnpr]
+  have n2 : npr.lost = ppr.lost := by rw [hnpr]
+  have n3 : npr.pingTimer = ppr.pingTimer := by rw [hnpr]
+  have n4 : npr.pingAlarm = ppr.pingAlarm := by rw [hnpr]
+  have n5 : npr.state = .connecting := by rw [hnpr]
+  have n6 : npr.connReq = some w.nextCR := by rw [hnpr]
+  have n7 : npr.buffer = ppr.buffer := by rw [hnpr]
+  obtain ⟨w', hw'⟩ : ∃ w', w' = connStartW w p npr due ka log' := ⟨_, rfl⟩
+  rw [← hw']
+  have hap := fun t' k => add_pending h due (.connack w.nextCR) (w' := w') (by rw [hw']; rfl) t' k
+  have hao := fun t' k hk' => add_other h due (.connack w.nextCR) (w' := w') (by rw [hw']; rfl) t' k hk'
+  have hprot : ∀ q, w'.protos.get? q = if p = q then some npr else w.protos.get? q := by
+    intro q; rw [hw']; simp only [connStartW, Dict.get?_set]
+  have hcq : ∀ cr, w'.connReqs.get? cr = if w.nextCR = cr then some ⟨p, ka, some w.nextDfd, w.nextTimer⟩ else w.connReqs.get? cr := by
+    intro cr; rw [hw']; simp only [connStartW, Dict.get?_set]
+  have hcrf : w.connReqs.get? w.nextCR = none := by
+    cases hg : w.connReqs.get? w.nextCR with
+    | none => rfl
+    | some c => exact absurd (h.crFresh _ _ hg) (Nat.lt_irrefl _)
+  have he : w'.ents = w.ents := by rw [hw']; rfl
+  have hr : w'.reqs = w.reqs := by rw [hw']; rfl
+  have hf : w'.fired = w.fired := by rw [hw']; rfl
+  have hreq := req_of_reqs hr
+  have hid' : ∀ e, idOf w' e = idOf w e := by intro e; simp [idOf, hreq]
+  have hnd : w'.nextDfd = w.nextDfd + 1 := by rw [hw']; rfl
+  have hnofd : w.nextDfd ∉ w.fired := fun hc => Nat.lt_irrefl _ (h.firedFresh _ hc)
+  -- a handshake timer that was pending before does not belong to `p`
+  have hnotp : ∀ t cr, Pending w t (.connack cr) → ∀ c, w.connReqs.get? cr = some c → c.proto ≠ p := by
+    intro t cr hp c hc hown
+    obtain ⟨c2, d2, a1, a2, a3, a4, pr, a5, a6⟩ := h.connackOwned t cr hp
+    rw [hc] at a1; injection a1 with a1; subst a1
+    rw [hown, hpp] at a5; injection a5 with a5; subst a5
+    rcases a6 with a6 | ⟨a6, _⟩
+    · rw [hnl] at a6; cases a6
+    · rw [hs] at a6; cases a6
+  constructor
+  case nodup => rw [he]; exact h.nodup
+  case ridFresh => rw [he]; rw [hw']; exact h.ridFresh
+  case ridUnique => rw [he]; exact h.ridUnique
+  case idUnique => rw [he]; simp only [hid']; exact h.idUnique
+  case keyId => rw [he]; simp only [hreq]; exact h.keyId
+  case queueNoAlarm => rw [he]; simp only [hreq]; exact h.queueNoAlarm
+  case idCounter => rw [hw']; exact h.idCounter
+  case timerFresh => rw [hw']; exact add_fresh h _ rfl rfl
+  case firedFresh => rw [hf, hnd]; intro d hd; exact Nat.lt_succ_of_lt (h.firedFresh d hd)
+  case crFresh =>
+    intro cr c hc
+    rw [hcq] at hc
+    rw [hw']; show cr < w.nextCR + 1
+    split at hc
+    · omega
+    · exact Nat.lt_succ_of_lt (h.crFresh cr c hc)
+  case protoFresh =>
+    have hnp : w'.nextProto = w.nextProto := by rw [hw']; rfl
+    rw [hnp]; simp only [hprot]
+    have := h.protoFresh
+    grind
+  case dfdFresh =>
+    rw [he, hf, hnd]; simp only [hreq]
+    intro e he' d hd
+    exact ⟨Nat.lt_succ_of_lt (h.dfdFresh e he' d hd).1, (h.dfdFresh e he' d hd).2⟩
+  case dfdSome => rw [he]; simp only [hreq]; exact h.dfdSome
+  case dfdInj => rw [he]; simp only [hreq]; exact h.dfdInj
+  case alarm =>
+    rw [he]; simp only [hreq, hprot]
+    intro e he' t ht
+    obtain ⟨a1, q, qr, a2, a3, a4⟩ := h.alarm e he' t ht
+    have a2' := (hao t (.retry q e.rid) (by simp)).mpr a2
+    refine ⟨a1, q, ?_⟩
+    grind
+  case noStale => rw [he]; simp only [hreq]; intro t q rid hp; exact h.noStale t q rid ((hao _ _ (by simp)).mp hp)
+  case connected =>
+    rw [he]; simp only [hreq, hprot]
+    have := h.connected
+    grind
+  case oneLive =>
+    simp only [hprot]
+    have := h.oneLive
+    grind
+  case lostIdle =>
+    simp only [hprot]
+    have := h.lostIdle
+    grind
+  case pingAlarm =>
+    simp only [hprot]
+    intro q qr t hq ht
+    refine (hao _ _ (by simp)).mpr ?_
+    have := h.pingAlarm
+    grind
+  case pingTimer =>
+    simp only [hprot]
+    intro q qr l hq hl
+    by_cases hqp : p = q
+    · subst hqp
+      simp only [↓reduceIte] at hq; injection hq with hq; subst hq
+      rw [n3] at hl
+      have := (h.pingTimer p ppr l hpp hl).2.1
+      rw [hs] at this; cases this
+    · simp only [hqp, ↓reduceIte] at hq
+      obtain ⟨a1, a2, a3, a4⟩ := h.pingTimer q qr l hq hl
+      exact ⟨a1, a2, a3, fun t ht => (hao _ _ (by simp)).mpr (a4 t ht)⟩
+  case pingAlarmOwned =>
+    simp only [hprot]
+    intro t q hp
+    obtain ⟨pr, a1, a2⟩ := h.pingAlarmOwned t q ((hao _ _ (by simp)).mp hp)
+    by_cases hqp : p = q
+    · subst hqp; rw [hpp] at a1; injection a1 with a1; subst a1
+      exact ⟨npr, by simp, by rw [n4]; exact a2⟩
+    · exact ⟨pr, by simp [hqp, a1], a2⟩
+  case pingLoopOwned =>
+    simp only [hprot]
+    intro t q hp
+    obtain ⟨pr, l, a1, a2, a3⟩ := h.pingLoopOwned t q ((hao _ _ (by simp)).mp hp)
+    by_cases hqp : p = q
+    · subst hqp; rw [hpp] at a1; injection a1 with a1; subst a1
+      exact ⟨npr, l, by simp, by rw [n3]; exact a2, a3⟩
+    · exact ⟨pr, l, by simp [hqp, a1], a2, a3⟩
+  case connecting =>
+    rw [hf]; simp only [hprot]
+    intro q qr hq hs'
+    by_cases hqp : p = q
+    · subst hqp
+      simp only [↓reduceIte] at hq; injection hq with hq; subst hq
+      refine ⟨w.nextCR, ⟨p, ka, some w.nextDfd, w.nextTimer⟩, n6, by rw [hcq]; simp, rfl, fun d hd => ?_⟩
+      injection hd with hd; subst hd
+      exact ⟨hnofd, (hap _ _).mpr (Or.inr ⟨rfl, rfl⟩)⟩
+    · simp only [hqp, ↓reduceIte] at hq
+      obtain ⟨cr, c, i1, i2, ip, i3⟩ := h.connecting q qr hq hs'
+      have hne : ¬ w.nextCR = cr := by have := h.crFresh cr c i2; omega
+      refine ⟨cr, c, i1, by rw [hcq]; simp [hne, i2], ip, fun d hd => ⟨(i3 d hd).1, (hap _ _).mpr (Or.inl (i3 d hd).2)⟩⟩
+  case connReq =>
+    rw [hf, hnd, he]; simp only [hreq]
+    intro cr c d hc hd hnf
+    rw [hcq] at hc
+    split at hc
+    · injection hc with hc; subst hc
+      injection hd with hd; subst hd
+      exact ⟨Nat.lt_succ_self _, fun e he' hc' => Nat.lt_irrefl _ (h.dfdFresh e he' _ hc').1⟩
+    · obtain ⟨a1, a2⟩ := h.connReq cr c d hc hd hnf
+      exact ⟨Nat.lt_succ_of_lt a1, a2⟩
+  case connReqInj =>
+    intro cr1 cr2 c1 c2 d h1 h2 hd1 hd2
+    rw [hcq] at h1 h2
+    split at h1 <;> split at h2
+    · rename_i e1 e2; rw [← e1, ← e2]
+    · injection h1 with h1; subst h1; injection hd1 with hd1; subst hd1
+      exact absurd (h.connReqFresh cr2 c2 _ h2 hd2) (Nat.lt_irrefl _)
+    · injection h2 with h2; subst h2; injection hd2 with hd2; subst hd2
+      exact absurd (h.connReqFresh cr1 c1 _ h1 hd1) (Nat.lt_irrefl _)
+    · exact h.connReqInj cr1 cr2 c1 c2 d h1 h2 hd1 hd2
+  case connReqFresh =>
+    rw [hnd]
+    intro cr c d hc hd
+    rw [hcq] at hc
+    split at hc
+    · injection hc with hc; subst hc; injection hd with hd; subst hd; exact Nat.lt_succ_self _
+    · exact Nat.lt_succ_of_lt (h.connReqFresh cr c d hc hd)
+  case connackOwned =>
+    rw [hf]
+    intro t cr hp
+    rcases (hap t _).mp hp with hp1 | ⟨hp1, hp2⟩
+    · obtain ⟨c, d, a1, a2, a3, a4, pr, a5, a6⟩ := h.connackOwned t cr hp1
+      have hne : ¬ w.nextCR = cr := by have := h.crFresh cr c a1; omega
+      have hnp := hnotp t cr hp1 c a1
+      refine ⟨c, d, by rw [hcq]; simp [hne, a1], a2, a3, a4, pr, ?_, a6⟩
+      rw [hprot]
+      have : ¬ p = c.proto := fun hc => hnp hc.symm
+      simp [this, a5]
+    · injection hp2 with hp2; subst hp2; subst hp1
+      refine ⟨⟨p, ka, some w.nextDfd, w.nextTimer⟩, w.nextDfd, by rw [hcq]; simp, rfl, hnofd, rfl, npr, ?_, Or.inr ⟨n5, n6⟩⟩
+      rw [hprot]; simp
+  case retryLive =>
+    simp only [hprot]
+    intro t q rid hp
+    obtain ⟨pr, a1, a2⟩ := h.retryLive t q rid ((hao _ _ (by simp)).mp hp)
+    by_cases hqp : p = q
+    · subst hqp; rw [hpp] at a1; injection a1 with a1; subst a1
+      exact ⟨npr, by simp, by rw [n2]; exact a2⟩
+    · exact ⟨pr, by simp [hqp, a1], a2⟩
+  case connReqLive =>
+    rw [hf]; simp only [hprot]
+    intro q qr cr c hq hcq' hc
+    rw [hcq] at hc
+    by_cases hqp : p = q
+    · subst hqp
+      simp only [↓reduceIte] at hq; injection hq with hq; subst hq
+      rw [n6] at hcq'; injection hcq' with hcq'; subst hcq'
+      simp only [↓reduceIte] at hc; injection hc with hc; subst hc
+      exact ⟨rfl, fun d hd => by injection hd with hd; subst hd; exact hnofd⟩
+    · simp only [hqp, ↓reduceIte] at hq
+      split at hc
+      · rename_i heq; subst heq
+        exact absurd (h.connReqRef q qr _ hq hcq') (Nat.lt_irrefl _)
+      · exact h.connReqLive q qr cr c hq hcq' hc
+  case connReqRef =>
+    simp only [hprot]
+    intro q qr cr hq hcq'
+    show cr < w'.nextCR
+    rw [hw']; show cr < w.nextCR + 1
+    by_cases hqp : p = q
+    · subst hqp
+      simp only [↓reduceIte] at hq; injection hq with hq; subst hq
+      rw [n6] at hcq'; injection hcq' with hcq'; omega
+    · simp only [hqp, ↓reduceIte] at hq
+      exact Nat.lt_succ_of_lt (h.connReqRef q qr cr hq hcq')
+  case subArmed =>
+    rw [he]; simp only [hreq, hprot]
+    intro e he' hb ha
+    obtain ⟨q, qr, a1, _⟩ := h.subArmed e he' hb ha
+    cases a1
+  case profileOk => rw [hw']; exact h.profileOk
+  case bufOk =>
+    simp only [hprot]
+    have := h.bufOk
+    grind
+
+/-- MQTTBaseProtocol.connect on a protocol whose loss has not been reported -/
+theorem apiConnect_inv {w : World} (h : WInv w) (p : Nat) (a : ConnectArgs) (hlive : Live w p) : WInv (apiConnect p a w).1 := by
+  obtain ⟨ppr, hpp, hnl⟩ := hlive
+  unfold apiConnect
+  generalize a.toF.encode = E
+  simp only [read_apply]
+  by_cases ha : allowed w p 0 = true
+  · simp only [ha, Bool.not_true, Bool.false_eq_true, ↓reduceIte]
+    have hs := (allowed_state h p ppr hpp 0 (by omega) ha).1 rfl
+    split
+    · exact emit_inv h _
+    · cases E with
+      | error e =>
+        simp only
+        split
+        · exact emit_inv h _
+        · exact h
+      | ok pdu =>
+        simp only
+        have hC := connStart_inv h p ppr hpp hs hnl a.cleanStart (verOf a.version)
+          (w.now + ticks (if a.keepalive.toNat = 0 then 10 else (a.keepalive.toNat : Rat))) a.keepalive.toNat
+          ((w.log ++ [.write p pdu]) ++ [.retPending w.nextDfd none])
+        have hfin : (setProto p (fun pr => { pr with cleanStart := a.cleanStart, version := verOf a.version }) ;;
+            write p pdu ;;
+            setProto p (fun pr => { pr with state := .connecting }) ;;
+            Step.read fun w =>
+              let cr := w.nextCR
+              let ka := a.keepalive.toNat
+              callLater (if ka = 0 then 10 else ka) (.connack cr) fun tid =>
+                newDfd fun d =>
+                  Step.mod (fun w => { w with connReqs := w.connReqs.set cr ⟨p, ka, some d, tid⟩, nextCR := cr + 1 }) ;;
+                  setProto p (fun pr => { pr with connReq := some cr }) ;;
+                  emit (.retPending d none)) w
+            = (connStartW w p { ppr with cleanStart := a.cleanStart, version := verOf a.version, state := .connecting, connReq := some w.nextCR }
+                (w.now + ticks (if a.keepalive.toNat = 0 then 10 else (a.keepalive.toNat : Rat))) a.keepalive.toNat
+                ((w.log ++ [.write p pdu]) ++ [.retPending w.nextDfd none]), none) := by
+          simp only [Step.seq, setProto, Step.mod, write, emit, World.emit, Step.read, callLater, newDfd, World.callLater, World.proto,
+            Dict.get?_set, ↓reduceIte, Option.getD_some, hpp, Dict.set_set, connStartW]
+        rw [hfin]
+        exact hC
+  · simp only [ha, Bool.not_false, ↓reduceIte]
+    exact emit_inv h _
 
 end Mqtt
